@@ -267,3 +267,24 @@ pub fn preflight(ctx: &mut ShardCtx, p: &Prepared) -> Result<RefRun, Outcome> {
 pub fn source_hash(src: &str) -> u64 {
     hash_str(src)
 }
+
+/// Thorough tier: triage of the libFuzzer campaign on the `tape` target (fuzz/run.sh tape).
+/// The first byte selects the profile, the rest is the choice tape.
+pub fn tape_triage(ctx: &mut ShardCtx, mut f: impl FnMut(&mut ShardCtx, &[u8], &str) -> Outcome) {
+    if ctx.tier != crate::ctx::Tier::Thorough {
+        return;
+    }
+    let inputs = crate::driver::fuzz_inputs("tape", 30_000);
+    if ctx.shard == 0 {
+        ctx.note(format!("fuzz-triage: {} inputs from the libFuzzer campaign on the `tape` target", inputs.len()));
+    }
+    for (i, (name, bytes)) in inputs.iter().enumerate() {
+        if (i as u32) % ctx.of != ctx.shard || bytes.is_empty() || bytes.len() > 900 {
+            continue;
+        }
+        let profile = ["general", "reclaim", "prune", "scope", "arrays"][usize::from(bytes[0]) % 5];
+        let o = f(ctx, &bytes[1..], profile);
+        ctx.class(if name.starts_with("artifacts/") { "libFuzzer artifact triaged" } else { "libFuzzer corpus input triaged" });
+        ctx.handle("fuzz-triage", o);
+    }
+}
